@@ -46,7 +46,7 @@ def snapshot(arch):
 def run(ctx, rep):
     rng = ctx.rng
     rep.rule = ("serial archipelagos of 1..9 islands with island sizes 0..11 (equal, and unequal to exercise the size law), id-tagged members, "
-                "1..3 consecutive migrations with logged shuffles; distinct = distinct (sizes, shuffles); non-trivial = at least one pair exchanged members")
+                "1..3 consecutive migrations with logged shuffles; the partner every rank of a parallel archipelago computes for every island order (1..9 ranks); distinct = distinct (sizes, shuffles); non-trivial = at least one pair exchanged members")
     rep.assumptions = ["np.random.shuffle permutes in place (the permutation is logged, any permutation is covered by the theorems)"]
     lines, meta = [], []
     template, _ = simple_island(2)
